@@ -113,6 +113,37 @@ def _order_labels(case, val):
     return labels
 
 
+def _feature_labels(case):
+    """Which of the syntactic forms occur in the case (for the class distribution only)."""
+    found = set()
+
+    def walk(x):
+        if isinstance(x, dict):
+            if x.get('q') == 'd':
+                found.add('form:here-document')
+            elif x.get('q') == 't':
+                found.add('form:text-until-eol')
+            c = x.get('c')
+            if c == 'pgm':
+                found.add('form:stdout-from-program')
+            elif c == 'shell':
+                found.add('form:shell-command-line')
+            elif c == 'run':
+                found.add('form:run-program-in-matcher-or-transformer')
+            k = x.get('k')
+            if k in ('env', 'stdin', 'timeout', 'dir', 'file', 'run', 'assert'):
+                found.add('instr:' + ('bare-%-or-$' if (k == 'run' and x.get('bare')) else k))
+            for key in sorted(x):
+                walk(x[key])
+        elif isinstance(x, list):
+            for y in x:
+                walk(y)
+
+    walk(case.get('items'))
+    walk(case.get('act'))
+    return sorted(found)
+
+
 def check(case) -> Verdict:
     rd = reading()
     text = c08_render.render(case)
@@ -125,8 +156,10 @@ def check(case) -> Verdict:
     if case.get('fault'):
         labels.append('fault:' + case['fault'])
     labels.append('act:' + ('none' if case.get('act') is None else case['act']['c']))
-    labels.append('file-order:' + ('canonical' if list(case['order']) == ref.EXEC_ORDER else 'permuted'))
+    labels.append('file-order:' + ('canonical' if list(case['order']) == ref.EXEC_ORDER else
+                                   'split' if len(case['order']) > len(ref.EXEC_ORDER) else 'permuted'))
     labels.extend(sorted(val.features))
+    labels.extend(_feature_labels(case))
     labels.extend(_order_labels(case, val))
     for ctx, found, ok in val.cells:
         labels.append('cell-%s:%s' % ('ok' if ok else 'bad', ctx))
@@ -138,12 +171,22 @@ def check(case) -> Verdict:
 
     with driver.Workspace() as ws:
         ws.write('t.case', text)
+        for name, stdout in sorted(ref.PROBE_STDOUT.items()):
+            if stdout:
+                ws.probe_cfg(name, stdout=stdout)
         r = driver.run_inproc(ws, ['--keep', 't.case'])
         markers = ws.read_markers()
         probe_files = sorted(fn for fn in os.listdir(ws.obs)
                              if not fn.startswith('_') and fn != 'markers' and not fn.endswith('.cfg'))
-        observed_events = {fn: [{'argv': rec['argv'], 'stdin': rec['stdin']} for rec in ws.probe_records(fn)]
+        observed_events = {fn: [{'argv': rec['argv'], 'stdin': rec['stdin'],
+                                 'env': {k: v for k, v in rec['env'].items() if k.startswith(ref.ENV_PREFIX)}}
+                                for rec in ws.probe_records(fn)]
                            for fn in probe_files}
+        observed_shell = {}
+        for fn in sorted(os.listdir(ws.obs)):
+            if fn.startswith('_sh'):
+                with open(os.path.join(ws.obs, fn), 'rb') as f:
+                    observed_shell[fn[1:]] = f.read().decode('utf-8', errors='replace')
         ident = r.first_err_line
         sds = None
         if r.out.endswith('\n') and r.out.count('\n') == 1 and os.path.isdir(r.out[:-1]):
@@ -213,8 +256,9 @@ def check(case) -> Verdict:
 
     if ident == 'VALIDATION_ERROR':
         # "reported as VALIDATION_ERROR before anything executes"
-        if markers or any(observed_events.values()) or r.sandboxes or r.out != '':
-            return bad('rejected-but-something-executed', observed_events=observed_events)
+        if markers or any(observed_events.values()) or observed_shell or r.sandboxes or r.out != '':
+            return bad('rejected-but-something-executed', observed_events=observed_events,
+                       observed_shell=observed_shell)
         return Verdict(True, nontrivial=nontrivial, labels=labels,
                        sample={'case_text': text, 'identifier': ident, 'first_error': val.error})
 
@@ -246,24 +290,35 @@ def check(case) -> Verdict:
                     exp_cmp[k] = obs[k]
         if obs != exp_cmp:
             return bad('value/dir-contents', dir=dn, expected=exp_cmp, observed=obs)
-    if out.unknown_values:
-        labels.append('value-unknown')
-    else:
-        names = sorted(set(out.events) | set(observed_events))
-        for name in names:
-            exp_l = out.events.get(name, [])
-            obs_l = observed_events.get(name, [])
-            if len(exp_l) != len(obs_l):
-                return bad('value/probe-invocations', probe=name, expected=exp_l, observed=obs_l)
-            for e, o in zip(exp_l, obs_l):
-                if e['argv'] != o['argv']:
-                    return bad('value/probe-argv' + ('-act' if name == 'act' else ''), probe=name,
-                               expected=e['argv'], observed=o['argv'])
-                if e['stdin'] is ref.UNKNOWN:
+    if out.unknown_probes:
+        labels.append('invocations-unknown')
+    for name in sorted((set(out.events) | set(observed_events)) - out.unknown_probes):
+        exp_l = out.events.get(name, [])
+        obs_l = observed_events.get(name, [])
+        if len(exp_l) != len(obs_l):
+            return bad('value/probe-invocations', probe=name, expected=exp_l, observed=obs_l)
+        for e, o in zip(exp_l, obs_l):
+            if e['argv'] != o['argv']:
+                return bad('value/probe-argv' + ('-act' if name == 'act' else ''), probe=name,
+                           expected=e['argv'], observed=o['argv'])
+            if e['stdin'] is ref.UNKNOWN:
+                labels.append('value-unknown')
+            elif e['stdin'] != o['stdin']:
+                return bad('value/probe-stdin', probe=name, expected=e['stdin'], observed=o['stdin'])
+            if sorted(e['env']) != sorted(o['env']):
+                return bad('value/probe-env-names', probe=name, expected=e['env'], observed=o['env'])
+            for k, v in sorted(e['env'].items()):
+                if v is ref.UNKNOWN:
                     labels.append('value-unknown')
-                elif e['stdin'] != o['stdin']:
-                    return bad('value/probe-stdin', probe=name, expected=e['stdin'], observed=o['stdin'])
-    n_obs = len(out.files) + len(out.dirs) + sum(len(v) for v in out.events.values())
+                elif v != o['env'][k]:
+                    return bad('value/probe-env', probe=name, var=k, expected=v, observed=o['env'][k])
+    for name in sorted((set(out.shell) | set(observed_shell)) - out.unknown_probes):
+        exp = out.shell.get(name, '')
+        if exp is ref.UNKNOWN:
+            labels.append('value-unknown')
+        elif exp != observed_shell.get(name, ''):
+            return bad('value/shell-command-line', output=name, expected=exp, observed=observed_shell.get(name, ''))
+    n_obs = (len(out.files) + len(out.dirs) + sum(len(v) for v in out.events.values()) + len(out.shell))
     labels.append('observations:%s' % (n_obs if n_obs < 4 else '4+'))
     return Verdict(True, nontrivial=nontrivial, labels=labels,
                    sample={'case_text': text, 'identifier': ident,
